@@ -105,10 +105,13 @@ VLHeaders  == {Run(n, 65) \o <<63>> : n \in VL} \cup {<<58>> \o Run(256, 90) \o 
 VLExprs    == {<<40>> \o Run(n, 49) \o <<41>> : n \in VL}
 VLBlocks   == {<<35, 51, 50, 53, 54>> \o Run(256, 120), <<35, 51, 53, 49, 50>> \o Run(512, 0)}
 VLSuffixes == {Run(256, 86), <<86, 47>> \o Run(256, 83)}
+(* units with 127 .. 257 parameters (the parameter count of a unit is a number like any other) *)
+ParamList(n) == [i \in 1..(2 * n - 1) |-> IF i % 2 = 1 THEN 49 ELSE 44]
+VLUnits    == {<<65, 32>> \o ParamList(n) \o <<10>> : n \in {127, 128, 129, 255, 256, 257}}
 
 Cases == {<<"ldec", x>> : x \in VLDecimals} \cup {<<"lndc", x>> : x \in VLNondecs} \cup {<<"lstr", x>> : x \in VLStrings}
          \cup {<<"lhdr", x>> : x \in VLHeaders} \cup {<<"lexp", x>> : x \in VLExprs} \cup {<<"lblk", x>> : x \in VLBlocks}
-         \cup {<<"lsuf", x>> : x \in VLSuffixes}
+         \cup {<<"lsuf", x>> : x \in VLSuffixes} \cup {<<"lunit", x>> : x \in VLUnits}
          \cup {<<"lhdr", x>> : x \in Headers} \cup {<<"ldec", x>> : x \in Decimals} \cup {<<"lsuf", x>> : x \in Suffixes \cup RelaxedSuffixes}
          \cup {<<"lndc", x>> : x \in Nondecs} \cup {<<"lstr", x>> : x \in Strings} \cup {<<"lblk", x>> : x \in Blocks}
          \cup {<<"lexp", x>> : x \in Exprs} \cup {<<"lunit", x>> : x \in Units3 \cup (IF Big THEN UnitsBig ELSE {})}
